@@ -1,7 +1,9 @@
 (* Uniform evaluation interface used by the correspondence harness: every model / spec function is
    reachable as  run fid args  over lists of integers, so the OCaml driver and the in-kernel
    cross-check are generic. *)
-From MS Require Import lib.Base gen.GenConst gen.GenCmd model.Frame model.Command spec.RefFrame.
+From MS Require Import lib.Base gen.GenConst gen.GenCmd model.Frame model.Command model.Response model.Device spec.RefFrame.
+From RecordUpdate Require Import RecordSet.
+Import RecordSetNotations.
 Open Scope Z_scope.
 
 Definition zb (l : list Z) : bytes := map Z.to_N l.
@@ -52,5 +54,129 @@ Definition run_frame (fid : Z) (a : list (list Z)) : option out :=
          Some (ok [[boolz (dev_accepts (argn a 0) f)]; [Z.of_N (msg_id f)]; bz (frame_body f)])
   | 6 => Some (ok [[Z.of_N (crc8_bitwise (zb (arg a 0)))]])
   | 7 => Some (of_res (frame_validate (zb (arg a 0))) (fun _ => []))
+  | _ => None
+  end.
+
+(* ---------------- responses ---------------- *)
+Definition optz (o : option Z) : list Z := match o with Some z => [1; z] | None => [0; 0] end.
+Definition optn (o : option N) : list Z := match o with Some n => [1; Z.of_N n] | None => [0; 0] end.
+Definition optb (o : option bool) : list Z := match o with Some b => [1; boolz b] | None => [0; 0] end.
+
+Definition enc_state (s : state_resp) : list Z :=
+  [boolz (s_power s); Z.of_N (s_target s); Z.of_N (s_mode s); Z.of_N (s_fan s); Z.of_N (s_swing s);
+   boolz (s_turbo s); boolz (s_indep_aux s); boolz (s_follow_me s); boolz (s_eco s); boolz (s_purifier s);
+   boolz (s_aux s); boolz (s_sleep s); boolz (s_fahrenheit s)]
+  ++ optz (s_indoor s) ++ optz (s_outdoor s) ++ [boolz (s_filter s); boolz (s_display s)]
+  ++ optn (s_humidity s) ++ optb (s_freeze s).
+
+Definition enc_capval (v : capval) : list Z :=
+  match v with CBool b => [0; boolz b] | CHalf h => [1; Z.of_N h] end.
+Definition enc_cdict (d : cdict) : list (list Z) :=
+  flat_map (fun kv => [bz (fst kv); enc_capval (snd kv)]) d.
+Definition enc_pdict (d : pdict) : list Z := flat_map (fun kv => [Z.of_N (fst kv); Z.of_N (snd kv)]) d.
+
+Definition enc_response (r : response) : list (list Z) :=
+  match r with
+  | RState i s => [[1; Z.of_N i]; enc_state s]
+  | RCaps i d more => [[2; Z.of_N i]; [boolz more]] ++ enc_cdict d
+  | RProps i d => [[3; Z.of_N i]; enc_pdict d]
+  | REnergy i e => [[4; Z.of_N i]; [boolz (e_valid e); Z.of_N (e_total e); Z.of_N (e_current e); Z.of_N (e_power e);
+                                    Z.of_N (e_total_bin e); Z.of_N (e_current_bin e); Z.of_N (e_power_bin e)]]
+  | RHumidity i h => [[5; Z.of_N i]; optn h]
+  | RBase i => [[6; Z.of_N i]]
+  end.
+
+Definition run_resp (fid : Z) (a : list (list Z)) : option out :=
+  match fid with
+  | 10 => Some (of_res (construct (zb (arg a 0))) enc_response)
+  | 11 => Some (ok [optz (parse_temperature (argn a 0) (argn a 1) (zbool (argz a 2)))])
+  | 12 => Some (of_res (response_validate (zb (arg a 0))) (fun _ => []))
+  | _ => None
+  end.
+
+(* ---------------- device operations against a scripted peer ---------------- *)
+Definition optbz (o : option bool) : list Z := optb o.
+Definition nl (l : list N) : list Z := map Z.of_N l.
+
+Definition enc_dev (d : dev) : list (list Z) :=
+  [ [boolz (d_beep d); boolz (d_power d); Z.of_N (d_target d); Z.of_N (d_mode d); Z.of_N (d_fan d); Z.of_N (d_swing d);
+     boolz (d_eco d); boolz (d_turbo d)] ++ optb (d_freeze d) ++ [boolz (d_sleep d); boolz (d_fahrenheit d);
+     boolz (d_display d); boolz (d_filter d); boolz (d_follow_me d); boolz (d_purifier d)] ++ optn (d_humidity d)
+     ++ optz (d_indoor d) ++ optz (d_outdoor d) ++ optn (d_indoor_humidity d) ++ [Z.of_N (d_aux_mode d)]
+     ++ optn (d_total_energy d) ++ optn (d_current_energy d) ++ optn (d_power_usage d)
+     ++ [boolz (d_use_binary d); boolz (d_request_energy d)];
+    nl (d_sup_op_modes d); nl (d_sup_swing_modes d); nl (d_sup_fan_speeds d);
+    [boolz (d_sup_custom_fan d); boolz (d_sup_eco d); boolz (d_sup_turbo d); boolz (d_sup_freeze d);
+     boolz (d_sup_display d); boolz (d_sup_filter d); boolz (d_sup_purifier d); boolz (d_sup_humidity d);
+     boolz (d_sup_target_humidity d); Z.of_N (d_min_temp d); Z.of_N (d_max_temp d)];
+    nl (d_sup_rates d); nl (d_sup_aux_modes d); nl (d_sup_props d); nl (d_upd_props d);
+    [Z.of_N (d_hangle d); Z.of_N (d_vangle d); boolz (d_self_clean d); Z.of_N (d_rate d); Z.of_N (d_breeze d);
+     boolz (d_ieco d); boolz (d_online d); boolz (d_supported d)] ].
+
+Definition W := world (list (list bytes)).
+
+Definition do_op (w : W) (op a : Z) : W * option exn :=
+  let sd (f : dev -> dev) : W * option exn := (upd_dev w f, None) in
+  let n := Z.to_N a in let b := zbool a in
+  match op with
+  | 1 => refresh script_peer w
+  | 2 => apply_op script_peer w
+  | 3 => get_capabilities script_peer w
+  | 4 => toggle_display script_peer w
+  | 5 => start_self_clean script_peer w
+  | 10 => sd (fun d => d <| d_beep := b |>)
+  | 11 => sd (fun d => d <| d_power := b |>)
+  | 12 => sd (fun d => d <| d_target := n |>)
+  | 13 => sd (fun d => d <| d_mode := n |>)
+  | 14 => sd (fun d => d <| d_fan := n |>)
+  | 15 => sd (fun d => d <| d_swing := n |>)
+  | 16 => sd (fun d => d <| d_eco := b |>)
+  | 17 => sd (fun d => d <| d_turbo := b |>)
+  | 18 => sd (fun d => d <| d_freeze := Some b |>)
+  | 19 => sd (fun d => d <| d_sleep := b |>)
+  | 20 => sd (fun d => d <| d_fahrenheit := b |>)
+  | 21 => sd (fun d => d <| d_follow_me := b |>)
+  | 22 => sd (fun d => d <| d_purifier := b |>)
+  | 23 => sd (fun d => d <| d_humidity := Some n |>)
+  | 24 => sd (fun d => d <| d_aux_mode := n |>)
+  | 25 => sd (fun d => set_breeze_away d b)
+  | 26 => sd (fun d => set_breeze_mild d b)
+  | 27 => sd (fun d => set_breezeless d b)
+  | 28 => sd (fun d => set_hangle d n)
+  | 29 => sd (fun d => set_vangle d n)
+  | 30 => sd (fun d => set_ieco d b)
+  | 31 => sd (fun d => set_rate d n)
+  | 32 => sd (fun d => d <| d_use_binary := b |>)
+  | 33 => sd (fun d => d <| d_request_energy := b |>)
+  | _ => (w, None)
+  end.
+
+Fixpoint do_ops (w : W) (ops : list Z) : W * Z :=
+  match ops with
+  | op :: a :: t =>
+    match do_op w op a with
+    | (w', Some e) => (w', exn_code e)
+    | (w', None) => do_ops w' t
+    end
+  | _ => (w, 0)
+  end.
+
+(* split a flat list of frames into exchanges of the given sizes *)
+Fixpoint group (sizes : list Z) (frames : list (list Z)) : list (list bytes) :=
+  match sizes with
+  | [] => []
+  | k :: t => map zb (firstn (Z.to_nat k) frames) :: group t (skipn (Z.to_nat k) frames)
+  end.
+
+Definition cmd_body_z (c : cmd) : list Z :=
+  match cmd_body c with Ok b => bz b | Err _ => [] end.
+
+Definition run_dev (fid : Z) (a : list (list Z)) : option out :=
+  match fid with
+  | 20 =>
+    let script := group (arg a 2) (skipn 3 a) in
+    let w0 := mkWorld dev_init script (argn a 0) [] in
+    let '(w, st) := do_ops w0 (arg a 1) in
+    Some (st, enc_dev (w_dev w) ++ [[Z.of_N (w_counter w)]] ++ map cmd_body_z (w_sent w))
   | _ => None
   end.
